@@ -428,6 +428,7 @@ def run_write_failure(spec, acc):
     try:
         m = long_message(dbx, rng, box, 40, 40)
         n = len(reference_packets(kind, m))
+        done_ = set()
         # one drain() fails while other senders are queued behind it (write direction hiccup, reads silent): the
         # client must still come back CONNECTED on a new link
         others = [long_message(dbx, rng, box, 41 + j, 20) for j in range(2)]
@@ -496,7 +497,10 @@ def run_write_failure(spec, acc):
             if later[:1] != ["DISCONNECTED"] or later[-2:] != ["CONNECTED", "CLOSED"] or len(sim.conns) <= n_conn:
                 acc.violation("failing-write-not-followed-by-reconnect", f"{kind}: after a read loss, a send during the retry wait and a recovery, a failing write on the new link gave "
                               f"status {later} and {len(sim.conns) - n_conn} new connection(s)", {"client": kind, "variant": variant, "status": sim.status})
-        for i in range(n):
+        for i in list(range(n)) + list(range(n)):
+            scb_ = "ok" if (i, "ok") not in done_ else "send_on_disconnected"      # second pass: the status callback itself sends
+            done_.add((i, scb_))
+
             async def scenario(sim, i=i):
                 sim.spawn("connect")
                 await asyncio.sleep(0.1)
@@ -504,10 +508,15 @@ def run_write_failure(spec, acc):
                 conn.fail_write_after = i
                 conn.fail_exc = simgw.serial_loss_exception() if kind == "waveshare" else BrokenPipeError(32, "broken pipe")
                 sim.t_send = sim.loop.time()
-                await sim.call("send", m)
+                t_ = sim.spawn("send", m)
+                await asyncio.wait([t_], timeout=60.0)
+                sim.send_returned = t_.done()
                 await asyncio.sleep(30.0)
                 await sim.call("close")
-            sim, stats = simgw.run_session(kind, scenario)
+            sim, stats = simgw.run_session(kind, scenario, status_cb=scb_)
+            if not stats["error"] and not getattr(sim, "send_returned", True):
+                acc.violation("send-never-returns-after-write-failure", f"{kind}: send() whose write failed at packet {i} had not returned 60 virtual s later (status callback: {scb_})",
+                              {"client": kind, "failing_packet": i, "status_callback": scb_, "status": sim.status})
             acc.count("sessions")
             acc.count("write_failures_checked")
             acc.case((kind, "write_failure", i))
